@@ -56,7 +56,7 @@ def run(c):
          name="as read: GSS branches hard-wire AUTH_SUCCESSFUL", workers=1, env=A.JVM)
     if not c.quick:
         for sw in ({"BlobOmits": "sid"}, {"BlobOmits": "user"}, {"BlobOmits": "service"}, {"BlobOmits": "alg"},
-                   {"BlobOmits": "key"}, {"KeepsResultAfterBadSig": True}, {"KeepsResultOnForeignLabel": True}, {"PkOkCachesApproval": True}, {"EmptyListPromotesPartial": True},
+                   {"BlobOmits": "key"}, {"KeepsResultAfterBadSig": True}, {"KeepsResultOnForeignLabel": True}, {"PkOkCachesApproval": True}, {"EmptyListPromotesPartial": True}, {"OnlyConstantsReject": True},
                    {"ProbeAuthenticates": True}):
             c.mc("ServerAuth", A.mc_cfg(A.consts(MaxDepth=4, ConfigSel={"plain"}, **sw)), expect="GrantNeedsApproval",
                  name="sensitivity: %s" % sw, workers=1, env=A.JVM)
@@ -65,7 +65,7 @@ def run(c):
     ph["model_checking"] = round(time.time() - t0, 1)
     other_sid = A.real_other_session_id()
     # ---- RP: spec -> code
-    jobs = A.replay_jobs(rnd, wits, msgs, 35 if c.quick else 3500, weight, lambda w, m: must(w, m, A.primary(msgs)), "rp")
+    jobs = A.replay_jobs(rnd, wits, msgs, 22 if c.quick else 3500, weight, lambda w, m: must(w, m, A.primary(msgs)), "rp")
     # every key type x every signature variant x approving / partially approving application, from the start
     for pk in sorted(A.PK_VARIANTS):
         label = ["label_other", "label_garbage"]
@@ -105,6 +105,13 @@ def run(c):
         ("gssapi-with-mic", {"gss": True, "bound": True},
          [R(method="gssapi-with-mic"), {"k": "gss_token", "tok": "done"}, {"k": "gss_mic", "cb": "partial"}]),
     ]
+    # a callback that returns none of the three documented constants (None from a missing return, an unknown int, a
+    # string, an object) has not returned success: never a grant, whatever the method - fixed stratum
+    for wi, (name, o, seq) in enumerate(partial_ways):
+        for ji in (range(len(A.JUNK)) if not c.quick or name == "password" else (0,)):
+            sq = [dict(q, cb="junk", junk=ji) if q.get("cb") == "partial" else dict(q) for q in seq] + [R(method="none", cb="fail")]
+            jobs.append({"bursts": A.single(sq), "opts": o, "names": A.DEFAULT_NAMES, "key": "junk|%s|%d" % (name, ji),
+                         "sample": name == "password" and ji == 0})
     for name, o, seq in partial_ways:
         for al in ("empty", "without"):
             sq = [dict(q, allowed=al) for q in seq] + [R(method="none", cb="fail", allowed=al)]
@@ -113,7 +120,7 @@ def run(c):
     traces = A.execute(c, jobs, other_sid, "TLC-generated")
     ph["replay"] = round(time.time() - t0, 1)
     # ---- TV: code -> spec
-    jobs = [A.random_job(rnd, rnd.randint(1, 12), {"ok": 0.25, "gss": 0.6}, "tv") for _ in range(45 if c.quick else 2000)]
+    jobs = [A.random_job(rnd, rnd.randint(1, 12), {"ok": 0.25, "gss": 0.6}, "tv") for _ in range(34 if c.quick else 2000)]
     traces += A.execute(c, jobs, other_sid, "random")
     ph["random"] = round(time.time() - t0, 1)
     A.validate(c, traces, A.C14_CLAUSES)
